@@ -32,6 +32,9 @@ def check_encodings(case, ctx):
     nt = False
     for frag, kind in case["encodings"]:
         ctx.label("enc:" + kind)
+        if frag and case.get("number_types"):
+            frag = dict(frag, number_types=case["number_types"])
+            ctx.label("number-types:" + case["number_types"])
         res = rate_values(cfg, teams, dict(opts, **frag), ctx)
         if res != canon:
             raise Violation("enc:" + kind, f"{cfg['kind']} classes={classes} encoding {frag!r} differs from ranks={classes}: {_first_diff(res, canon)}")
@@ -131,7 +134,7 @@ def enc_cases(draw):
         kinds = ["small_ints", "small_ints", "scores_small", "scores_small", "mixed"]
     else:
         g = draw(gen.games(options=True, enc_kinds=["int"]))
-        kinds = ["int_relabel", "float", "mixed", "bool", "huge", "zero_neg", "small_ints", "close", "close", "scores", "scores_small", "scores_float", "scores_huge", "omitted"]
+        kinds = ["int_relabel", "float", "mixed", "bool", "huge", "zero_neg", "small_ints", "half_grid", "half_grid", "close", "close", "scores", "scores_small", "scores_float", "scores_huge", "omitted"]
     classes = g["classes"]
     encs = []
     k = draw(st.integers(3, 5))
@@ -139,7 +142,8 @@ def enc_cases(draw):
         frag, kind = draw(gen.encodings(classes, kinds=kinds))
         encs.append([frag, kind])
     opts = {key: v for key, v in g["call"].items() if key in ("tau", "limit_sigma")}
-    return {"cfg": g["cfg"], "teams": g["teams"], "classes": classes, "opts": opts, "encodings": encs, "meta": g["meta"]}
+    nt = draw(st.sampled_from([None, None, None, None, "int-subclass", "float-subclass", "both"]))
+    return {"cfg": g["cfg"], "teams": g["teams"], "classes": classes, "opts": opts, "encodings": encs, "meta": g["meta"], "number_types": nt}
 
 
 @st.composite
